@@ -18,7 +18,7 @@ ASSUMPTIONS = [
     "array sizes bounded as listed; values unbounded reals",
     "NumPy primitives as modelled by vf.symnp (conformance pass against the real library)",
 ]
-BOUNDS = {"quick": {"wmom": "N<=3, Nxd with d=2 (N<=2)", "wmedian": "N<=4", "sigma_clip": "N<=3, niter<=2", "interplin": "2..3 nodes, 1..2 query points", "cov": "<=2x2 round trip, 3x3 cov2cor"},
+BOUNDS = {"quick": {"wmom": "N<=3, Nxd with d=2 (N<=2)", "wmedian": "N<=4", "sigma_clip": "N<=3, niter<=2; N=4, niter=2 with the weights fixed to (1, 2, 4, 1/2) and data, nsig symbolic", "interplin": "2..3 nodes, 1..2 query points", "cov": "<=2x2 round trip, 3x3 cov2cor"},
           "thorough": {"wmom": "N<=4, Nxd d=2 (N<=3)", "wmedian": "N<=5", "sigma_clip": "N<=4, niter<=3 (weighted: N<=3, and N=4 with niter=2)", "interplin": "2..4 nodes", "cov": "<=3x3"}}
 EXPLORE_OPTS = {"max_paths": 100000, "query_timeout_ms": 20000}
 TIER_OPTS = {"quick": {"time_budget": 300}, "thorough": {"time_budget": 2400}}
@@ -45,6 +45,9 @@ def configs(tier):
                 if wt and n == 3 and niter > 2:
                     continue
                 out.append(("sigma_clip", n, niter, wt))
+    # the same 4-point, two-pass weighted clipping with the weights fixed to distinct concrete values (data and
+    # nsig stay symbolic): cheap enough for every tier, and it is where weights misaligned with a shrunk subset show
+    out.append(("sigma_clip", 4, 2, "fixed"))
     if not q:
         # weighted clipping of 4 points with two passes: the smallest case in which the
         # weights of a twice-shrunk subset matter (about 4 minutes on one core)
@@ -192,7 +195,9 @@ def harness(cx, cfg):
             for a, b in zip(perm, perm[1:]):
                 cx.assume(x[a] <= x[b])
         w = _weights(cx, "w", n) if wt else None
-        if wt:
+        if wt == "fixed":
+            w = [1.0, 2.0, 4.0, 0.5][:n]
+        elif wt:
             for wi in w:
                 cx.assume(wi > 0)     # a surviving subset of total weight 0 has no defined moments
         nsig = cx.real("nsig", 0.5, 6)
@@ -494,6 +499,8 @@ def replay(cand):
         _, n, niter, wt = cfg[:4]
         x = vec("x", n)
         w = vec("w", n, 1.0) if wt else None
+        if wt == "fixed":
+            w = np.array([1.0, 2.0, 4.0, 0.5][:n])
         if wt and w.sum() <= 0:
             return no
         nsig = model_float(mdl.get("nsig", 4))
